@@ -8322,3 +8322,133 @@ func ruleDecodedKindChecked(c *Ctx) {
 		c.Note("no type assertion on a decoded stack item")
 	}
 }
+
+// ruleHandlerStatesAgree (C04): System.Contract.Call gives a callee a rollback scope of its own only when the calling
+// contract "has a try block" - when an exception the callee throws can be stopped before it faults the transaction (if
+// nothing can stop it, everything is discarded anyway). Which handlers stop an exception is decided in one place,
+// VM.handleException: it pops the handlers that are in their FINALLY block, or in their CATCH block with no FINALLY
+// to run, and stops at the first one left. VM.ContractHasTryBlock has to recognise exactly those: a handler it
+// misses (CATCH state with a FINALLY block, finding 92) stops the exception of a callee that was given no scope, and
+// the writes and notifications of the failed callee stay in a transaction that halts. The two conditions are folded
+// over the three handler states x {has FINALLY} x {has CATCH}; "recognised" must be the negation of "popped".
+func ruleHandlerStatesAgree(c *Ctx) {
+	he := c.P.Func("pkg/vm", "VM", "handleException")
+	ht := c.P.Func("pkg/vm", "VM", "ContractHasTryBlock")
+	if he == nil || ht == nil {
+		c.Lost("handler-states-agree.anchor", "VM.handleException / VM.ContractHasTryBlock not found")
+		return
+	}
+	info := he.Pkg.TypesInfo
+	type env struct {
+		state                string
+		hasFinally, hasCatch bool
+	}
+	var eval func(e ast.Expr, en env) (bool, bool)
+	eval = func(e ast.Expr, en env) (bool, bool) {
+		switch x := ast.Unparen(e).(type) {
+		case *ast.UnaryExpr:
+			if x.Op == token.NOT {
+				v, ok := eval(x.X, en)
+				return !v, ok
+			}
+		case *ast.BinaryExpr:
+			switch x.Op {
+			case token.LAND, token.LOR:
+				l, ok1 := eval(x.X, en)
+				r, ok2 := eval(x.Y, en)
+				if x.Op == token.LAND {
+					return l && r, ok1 && ok2
+				}
+				return l || r, ok1 && ok2
+			case token.EQL, token.NEQ:
+				se, ok := ast.Unparen(x.X).(*ast.SelectorExpr)
+				id, ok2 := ast.Unparen(x.Y).(*ast.Ident)
+				if ok && ok2 && se.Sel.Name == "State" {
+					if _, isConst := info.ObjectOf(id).(*types.Const); isConst {
+						return (en.state == id.Name) == (x.Op == token.EQL), true
+					}
+				}
+			}
+		case *ast.CallExpr:
+			if se, ok := ast.Unparen(x.Fun).(*ast.SelectorExpr); ok && len(x.Args) == 0 {
+				switch se.Sel.Name {
+				case "HasFinally":
+					return en.hasFinally, true
+				case "HasCatch":
+					return en.hasCatch, true
+				}
+			}
+		}
+		return false, false
+	}
+	// the popping condition of handleException: the if whose body pops the handler stack
+	var popCond, seeCond ast.Expr
+	ast.Inspect(he.Decl.Body, func(x ast.Node) bool {
+		is, ok := x.(*ast.IfStmt)
+		if !ok || popCond != nil {
+			return true
+		}
+		pops := false
+		ast.Inspect(is.Body, func(y ast.Node) bool {
+			if call, ok := y.(*ast.CallExpr); ok {
+				if se, ok := ast.Unparen(call.Fun).(*ast.SelectorExpr); ok && se.Sel.Name == "Pop" {
+					pops = true
+				}
+			}
+			return true
+		})
+		if pops {
+			popCond = is.Cond
+		}
+		return true
+	})
+	// the recognising condition of ContractHasTryBlock: the if that returns true
+	ast.Inspect(ht.Decl.Body, func(x ast.Node) bool {
+		is, ok := x.(*ast.IfStmt)
+		if !ok || len(is.Body.List) != 1 {
+			return true
+		}
+		if rs, ok := is.Body.List[0].(*ast.ReturnStmt); ok && len(rs.Results) == 1 {
+			if v, isC := boolConst(info, rs.Results[0]); isC && v {
+				seeCond = is.Cond
+			}
+		}
+		return true
+	})
+	if popCond == nil || seeCond == nil {
+		c.Lost("handler-states-agree.shape", "the popping condition of handleException or the `return true` condition of ContractHasTryBlock was not found")
+		return
+	}
+	var states []string
+	for _, name := range he.Pkg.Types.Scope().Names() {
+		if k, ok := he.Pkg.Types.Scope().Lookup(name).(*types.Const); ok {
+			if nt, ok := k.Type().(*types.Named); ok && nt.Obj().Name() == "exceptionHandlingState" {
+				states = append(states, name)
+			}
+		}
+	}
+	c.Floor("exception handler states", len(states), 3)
+	var bad []string
+	for _, st := range states {
+		for _, hf := range []bool{false, true} {
+			for _, hc := range []bool{false, true} {
+				en := env{st, hf, hc}
+				p, ok1 := eval(popCond, en)
+				s, ok2 := eval(seeCond, en)
+				if !ok1 || !ok2 {
+					c.Unclassified("handler-states-agree", c.P.Pos(seeCond.Pos()), "a condition over handler states has an atom the rule does not fold")
+					return
+				}
+				if s == p {
+					bad = append(bad, fmt.Sprintf("state %s, finally %v: handleException %s, ContractHasTryBlock %s", st, hf, map[bool]string{true: "pops it (does not stop there)", false: "stops there"}[p], map[bool]string{true: "counts it", false: "does not count it"}[s]))
+				}
+			}
+		}
+	}
+	if len(bad) == 0 {
+		c.OK("handler-states-agree", c.P.Pos(seeCond.Pos()), fmt.Sprintf("ContractHasTryBlock counts exactly the handlers handleException stops at (%d states x finally x catch folded)", len(states)))
+	} else {
+		sort.Strings(bad)
+		c.Fail("handler-states-agree", c.P.Pos(seeCond.Pos()), "VM.ContractHasTryBlock and VM.handleException disagree on which handlers stop an exception: "+bad[0]+fmt.Sprintf(" (%d rows differ). A call made while such a handler is the only one gets no rollback scope; when the callee throws, the handler stops the exception, the transaction can halt, and the storage writes and notifications of the failed callee are kept", len(bad)))
+	}
+}
